@@ -1,4 +1,5 @@
 import QF.Drv.Parse
+import QF.Core.Compare
 /-
 Driver section "hist": replays a frame-history transcript through the spec.
 Every `R` line (the implementation's observation) is compared with what the
@@ -268,11 +269,31 @@ def showRes : Res → String
   | .err => "Err"
   | .ok f => showFrame f
 
+/-- Rank of each cell of a column as an integer (none for null/NaN), for the sorter mirror. -/
+def colKey (c : LCol) : Nat → Option Int :=
+  let strs : List Bytes := (c.cells.toList.filterMap (fun x => match x with | .str (some s) => some s | _ => none)).eraseDups
+  let sorted := (strs.toArray.qsort (fun a b => bytesCmp a b == .lt)).toList
+  fun r => match c.cells[r]! with
+    | .int v => some v
+    | .float b => if F64.isNaN b then none else some (F64.key b)
+    | .bool b => some (if b then 1 else 0)
+    | .str none => none
+    | .str (some s) =>
+      if c.ty == .enum then (enumRank c.vals s).map (fun i => (i : Int))
+      else (sorted.findIdx? (· == s)).map (fun i => (i : Int))
+
+/-- The exact row order the mirror of internal/sort/sorter.go produces (the sorter is deterministic). -/
+def mirrorSort (f : LFrame) (os : List Order) : Option (List Nat) :=
+  match os.mapM (fun o => (f.find? o.col).map (fun c => (Cmp.mkTbl o.reverse false o.nullLast, colKey c))) with
+  | none => none
+  | some keys => some (Sorter.sort (Cmp.lessKeys keys) (Array.range f.n)).toList
+
 structure Verdict where
   ok : Bool
   kind : String := ""     -- value | errdiff | panic | wf | digest | equals | groups
   detail : String := ""
   known : Bool := false
+  mirror : Bool := false     -- the spec is satisfied but the mirror model predicts a different result
 
 def judgeCore (exp : Expect) (obs : Obs) : Verdict :=
   match obs with
@@ -297,7 +318,12 @@ def judgeCore (exp : Expect) (obs : Obs) : Verdict :=
       if isGroupAggResult f g && (List.zip f.cols g.cols).all (fun (x, y) => x.ty != .enum || (x.vals == y.vals && x.strict == y.strict)) then { ok := true }
       else { ok := false, kind := "value", detail := s!"expected (any row order) {showFrame f} got {showFrame g}" }
     | .sorted f os =>
-      if isSortedResult f g os && (List.zip f.cols g.cols).all (fun (x, y) => x.ty == y.ty && x.vals == y.vals && x.strict == y.strict) then { ok := true }
+      if isSortedResult f g os && (List.zip f.cols g.cols).all (fun (x, y) => x.ty == y.ty && x.vals == y.vals && x.strict == y.strict) then
+        match mirrorSort f os with
+        | some perm =>
+          if frameSame false (f.pick perm) g then { ok := true }
+          else { ok := false, mirror := true, kind := "order", detail := s!"sorted permutation, but not the order the sorter mirror produces: mirror {showFrame (f.pick perm)} got {showFrame g}" }
+        | none => { ok := true }
       else { ok := false, kind := "value", detail := s!"not a sorted permutation of {showFrame f}: got {showFrame g}" }
     | .distinct f gbNull keys =>
       if isDistinctResult f g gbNull keys && (List.zip f.cols g.cols).all (fun (x, y) => x.ty == y.ty && x.vals == y.vals && x.strict == y.strict) then { ok := true }
@@ -490,6 +516,7 @@ def histLine (s : HState) (toks : Array String) : HState × List Msg :=
         let s' := { s' with pending := none }
         (s', [if v.ok then { cls := "OK", op := p.op, kind := "", detail := "" }
               else if v.known then { cls := "KNOWN-FINDING", op := p.op, kind := v.kind, detail := v.detail }
+              else if v.mirror then { cls := "MIRROR-MISMATCH", op := p.op, kind := v.kind, detail := v.detail }
               else { cls := "SPEC-MISMATCH", op := p.op, kind := v.kind, detail := v.detail }])
   | some "P" =>
     match runP (do let _ ← nat; checkPhys) toks 1 with
